@@ -236,7 +236,14 @@ pub fn cli_roundtrip(thorough: bool, seed: u64) {
         }
         let bytes = m.to_bytes();
         let (mp, cp, op) = (dir.join("in.zst"), dir.join("dict.csv"), dir.join("out.zst"));
-        let _ = std::fs::remove_file(&op);
+        // the output paths already exist and hold MORE bytes than the tool is going to write (every other case)
+        if i % 2 == 0 {
+            std::fs::write(&op, vec![b'x'; bytes.len() + 4096]).unwrap();
+            std::fs::write(&cp, "word,weights,comment\n".repeat(400)).unwrap();
+        } else {
+            let _ = std::fs::remove_file(&op);
+            let _ = std::fs::remove_file(&cp);
+        }
         crate::cli::write_zst(&mp, &bytes);
         let s = |p: &std::path::Path| p.display().to_string();
         let o1 = crate::cli::run_tool("manipulate_model", &["--model-in".into(), s(&mp), "--dump-dict".into(), s(&cp)], b"");
